@@ -410,7 +410,8 @@ class SourceHandler:
         if packet.directive_type != DirectiveType.NAK_PDU:
             if (
                 self.states.step == TransactionStep.WAITING_FOR_EOF_ACK
-                and packet.directive_type != DirectiveType.ACK_PDU
+                and packet.directive_type
+                not in (DirectiveType.ACK_PDU, DirectiveType.FINISHED_PDU)
             ):
                 raise PduIgnoredForSource(
                     reason=PduIgnoredForSourceReason.NOT_WAITING_FOR_ACK,
@@ -738,6 +739,15 @@ class SourceHandler:
                 f"{self.transmission_mode!r}"
             )
         if self.__handle_retransmission(packet_holder):
+            return
+        if (
+            packet_holder.pdu is not None
+            and packet_holder.pdu_type == PduType.FILE_DIRECTIVE
+            and packet_holder.pdu_directive_type == DirectiveType.FINISHED_PDU
+        ):
+            # The receiver only sends a Finished PDU after it has received the EOF PDU: the ACK of
+            # the EOF PDU was lost. The Finished PDU is handled in the next step.
+            self.states.step = TransactionStep.WAITING_FOR_FINISHED
             return
         if packet_holder.pdu is None or (
             packet_holder.pdu_type == PduType.FILE_DIRECTIVE
